@@ -375,3 +375,19 @@ func DeepCases() []*Case {
 	}
 	return out
 }
+
+// DeepQuickCases: the slice of DeepCases with oneof-shaped inner contexts (where presence is
+// subtle) for four kinds; part of the quick tiers.
+func DeepQuickCases() []*Case {
+	var out []*Case
+	for _, c := range DeepCases() {
+		k := c.Under.Kind
+		if k != KBool && k != KString && k != KEnum && k != KInt64 {
+			continue
+		}
+		if strings.Contains(c.ID, "/exposed-oneof/") || strings.Contains(c.ID, "/plain-oneof-named-type/") || strings.Contains(c.ID, "/oneof-arm-scalar/") || strings.Contains(c.ID, "/flattened/") {
+			out = append(out, c)
+		}
+	}
+	return out
+}
